@@ -7,6 +7,7 @@
 //     expr.Hash (ref.go), cross-checked against the case's construction,
 //   - a reflection-based deep snapshot of the original before/after the copy
 //     is mutated (snap.go).
+//
 // Neither shares code with goa.
 package main
 
@@ -23,6 +24,7 @@ import (
 	"runtime/pprof"
 	"strings"
 	"sync"
+	"sync/atomic"
 	"time"
 
 	"goa.design/goa/v3/expr"
@@ -90,9 +92,9 @@ func O(fs ...*Field) *Att        { return &Att{T: &Type{K: "object", Fields: fs}
 func U(n string, fs ...*Field) *Att {
 	return &Att{T: &Type{K: "union", UName: n, Fields: fs}}
 }
-func Ar(e *Att) *Att   { return &Att{T: &Type{K: "array", Elem: e}} }
+func Ar(e *Att) *Att    { return &Att{T: &Type{K: "array", Elem: e}} }
 func Mp(k, e *Att) *Att { return &Att{T: &Type{K: "map", Key: k, Elem: e}} }
-func Rf(i int) *Att    { return &Att{T: &Type{K: "ref", Ref: i}} }
+func Rf(i int) *Att     { return &Att{T: &Type{K: "ref", Ref: i}} }
 func tagged(a *Att, kv ...string) *Att {
 	if a.Meta == nil {
 		a.Meta = map[string][]string{}
@@ -300,7 +302,7 @@ func exhaustive(run *vc.Run) {
 	// B2. a recursive reference must not hash like a finite type: T0 = {p1..pk, r: T0} against
 	// T0 = {p1..pk, r: T1}, T1 = {the members of T0 that sort before r}
 	for k := 0; k <= 3; k++ {
-		for _, rname := range []string{"zz", "b", "a0"} {
+		for _, rname := range []string{"zz", "bb", "a0", "0"} {
 			fs := fieldsN(nameSets[0], k, false)
 			var before []*Field
 			for _, f := range fieldsN(nameSets[0], k, false) {
@@ -462,6 +464,117 @@ func risky(run *vc.Run) {
 	}, nil)
 }
 
+// ---------------------------------------------------------------- canaries: cyclic graphs first in a child process
+
+var canaryShapes = []struct {
+	name string
+	g    *Graph
+}{
+	{"T0 = object{a: T0}", &Graph{UTs: []*UT{{Name: "T0", A: O(Fd("a", Rf(0)))}}, Root: Rf(0)}},
+	{"T0 = object{a: int, kids: array of T0, idx: map[string]T0}", &Graph{UTs: []*UT{{Name: "T0", A: O(Fd("a", P("int")), Fd("kids", Ar(Rf(0))), Fd("idx", Mp(P("string"), Rf(0))))}}, Root: Ar(Rf(0))}},
+	{"T0 = object{u: union{x: T0, y: string}}", &Graph{UTs: []*UT{{Name: "T0", A: O(Fd("u", U("U", Fd("x", Rf(0)), Fd("y", P("string")))))}}, Root: Rf(0)}},
+	{"T0 = object{p: T1}, T1 = object{q: T0}", &Graph{UTs: []*UT{{Name: "T0", A: O(Fd("p", Rf(1)))}, {Name: "T1", UID: "u1", A: O(Fd("q", Rf(0)))}}, Root: O(Fd("r", Rf(0)), Fd("s", Rf(1)))}},
+	{"result type RT0 = object{self: RT0, other: T1}, T1 = object{back: RT0}", &Graph{UTs: []*UT{
+		{Name: "T0", UID: "application/vnd.t0", Result: true, Views: []View{{Name: "default", Fields: []string{"self", "other"}}}, A: O(Fd("self", Rf(0)), Fd("other", Rf(1)))},
+		{Name: "T1", A: O(Fd("back", Rf(0)))}}, Root: Rf(0)}},
+	{"rich base", richBase()},
+}
+
+// cyclesUnsafe is set when a canary child crashed or hung on a cyclic graph:
+// from then on cyclic graphs are not handed to goa inside this process (a Go
+// stack overflow cannot be recovered) and count as inconclusive.
+var cyclesUnsafe atomic.Bool
+
+type canaryCase struct {
+	G    *Graph `json:"g"`
+	Note string `json:"note"`
+}
+
+// canaries runs Dup, Hash (8 flag combinations) and Equal on cyclic graphs in
+// a child process: the fixed shapes above plus the first cyclic graphs of the
+// random population.
+func canaries(run *vc.Run) {
+	rc := &rec{}
+	var cases []canaryCase
+	for _, s := range canaryShapes {
+		cases = append(cases, canaryCase{s.g, s.name})
+	}
+	want := run.N(150, 600)
+	for i := 0; len(cases) < len(canaryShapes)+want && i < 20*want; i++ {
+		if g, _ := randomGraph(run, i); hasCycle(g) {
+			cases = append(cases, canaryCase{g, fmt.Sprintf("random case %d", i)})
+		}
+	}
+	start, restarts := 0, 0
+	for start < len(cases) && restarts < 6 {
+		in, _ := json.Marshal(cases[start:])
+		out, stderr, err, to := runChild("canary", in, 600*time.Second)
+		lines := strings.Split(string(out), "\n")
+		done, last, lastOp := 0, -1, ""
+		for _, l := range lines {
+			var k int
+			switch {
+			case strings.HasPrefix(l, "START "):
+				fmt.Sscanf(l, "START %d", &k)
+				last = k
+			case strings.HasPrefix(l, "OP "):
+				lastOp = strings.TrimPrefix(l, "OP ")
+			case strings.HasPrefix(l, "DONE "):
+				done++
+			}
+		}
+		rc.Eval(done)
+		rc.Count("cyclic_graphs_passed_in_child", done)
+		if err == nil && !to && strings.Contains(string(out), "ALLDONE") {
+			break
+		}
+		restarts++
+		cyclesUnsafe.Store(true)
+		if last < 0 {
+			rc.Inconclusive("canary child failed before the first case")
+			rc.Seen("child_failures", clip(stderr))
+			break
+		}
+		c := cases[start+last]
+		api := "hash"
+		if strings.HasPrefix(lastOp, "dup") {
+			api = "dup"
+		}
+		rc.Eval(1)
+		w := Witness{Check: "risky", G: c.G, Op: lastOp, Note: c.Note}
+		switch {
+		case to:
+			rc.Inconclusive("canary child watchdog fired during " + lastOp + " (possible non-termination)")
+		case strings.Contains(stderr, "stack overflow") || strings.Contains(stderr, "goroutine stack exceeds"):
+			rc.Violation(api+"-nontermination cycle-through-object",
+				fmt.Sprintf("%s on %q recursed until the stack limit: the recursion through a user type is not cut", lastOp, c.Note), w)
+		default:
+			first := strings.SplitN(strings.TrimSpace(stderr), "\n", 2)[0]
+			rc.Violation(api+"-crash cyclic-graph", fmt.Sprintf("%s on %q killed the process: %s", lastOp, c.Note, clip(first)), w)
+		}
+		start += last + 1
+	}
+	if cyclesUnsafe.Load() {
+		run.Extra("cyclic_graphs_in_process", "skipped: a canary child crashed or hung on a cyclic graph")
+	}
+	rc.Distinct("canaries")
+	rc.flush(run)
+}
+
+func skipCyclic(rc *rec, gs ...*Graph) bool {
+	if !cyclesUnsafe.Load() {
+		return false
+	}
+	for _, g := range gs {
+		if g != nil && hasCycle(g) {
+			rc.Eval(1)
+			rc.Inconclusive("cyclic graph not evaluated in-process: a canary child crashed or hung on a cyclic graph")
+			return true
+		}
+	}
+	return false
+}
+
 // ---------------------------------------------------------------- child modes
 
 func childMain(op string) {
@@ -491,6 +604,30 @@ func childMain(op string) {
 		}
 		b, _ := json.Marshal(out)
 		os.Stdout.Write(b)
+	case op == "canary":
+		var cs []canaryCase
+		if err := json.Unmarshal(in, &cs); err != nil {
+			fmt.Fprintln(os.Stderr, "child: ", err)
+			os.Exit(3)
+		}
+		for k, c := range cs {
+			fmt.Printf("START %d\n", k)
+			b := build(c.G)
+			fmt.Println("OP dup")
+			d := expr.Dup(b.root.Type)
+			_ = snapHash(d)
+			fmt.Println("OP dupatt")
+			_ = snapHash(expr.DupAtt(b.root))
+			for _, fl := range allFlags() {
+				fmt.Println("OP hash:" + fl.String())
+				_ = expr.Hash(b.root.Type, fl.F, fl.N, fl.T)
+				_ = expr.Hash(d, fl.F, fl.N, fl.T)
+			}
+			fmt.Println("OP hash:-NT (Equal)")
+			_ = expr.Equal(b.root.Type, d)
+			fmt.Printf("DONE %d\n", k)
+		}
+		fmt.Println("ALLDONE")
 	case op == "dup" || strings.HasPrefix(op, "hash:"):
 		var w Witness
 		if err := json.Unmarshal(in, &w); err != nil {
@@ -582,6 +719,10 @@ func equalVariants(rc *rec, g *Graph, bg *built, r *vc.Rand) {
 			rc.Count("equal_pairs_held", 1)
 		case "masked":
 			rc.Count("equal_pairs_masked_by_hash_nondeterminism", 1)
+		case "skipped":
+			rc.Count("pairs_skipped_cycle_without_object", 1)
+		case "unsafe":
+			rc.Inconclusive("cyclic graph not evaluated in-process: a canary child crashed or hung on a cyclic graph")
 		case "inconclusive":
 			rc.Inconclusive("construction and reference oracle disagree")
 			rc.Seen("judge_disagreements", "combined "+fl.String()+" "+what)
@@ -669,6 +810,9 @@ func randomCase(run *vc.Run, i int, rc *rec, hashes *[8]string, stable *[8]bool)
 	if g.nontrivial() {
 		rc.Distinct(g.shape())
 	}
+	if skipCyclic(rc, g) {
+		return
+	}
 	reach := g.reachable()
 	rc.Max("max_reachable_user_types", len(reach))
 	rc.Max("max_positions", len(g.positions()))
@@ -699,7 +843,7 @@ func randomCase(run *vc.Run, i int, rc *rec, hashes *[8]string, stable *[8]bool)
 }
 
 func random(run *vc.Run) (sampleForChildren []*Graph) {
-	n := run.N(5000, 300000)
+	n := run.N(5000, 120000)
 	type slot struct {
 		h [8]string
 		s [8]bool
@@ -770,6 +914,9 @@ func random(run *vc.Run) (sampleForChildren []*Graph) {
 	m := run.N(64, 512)
 	for i := 0; i < m && i < n; i++ {
 		g, _ := randomGraph(run, i)
+		if cyclesUnsafe.Load() && hasCycle(g) {
+			continue
+		}
 		sampleForChildren = append(sampleForChildren, g)
 	}
 	return
@@ -892,6 +1039,8 @@ func main() {
 		t0 = time.Now()
 	}
 	debug.SetGCPercent(400)
+	canaries(run)
+	lap("canaries")
 	exhaustive(run)
 	lap("exhaustive")
 	hostile(run)
